@@ -1,4 +1,4 @@
 from harness.corecheck import make
 MODULE = make("C11", ["CircusProofs/Props/C11.lean"],
               ["CircusProofs/Core/Pres.lean", "CircusProofs/Core/Generic.lean", "CircusProofs/Core/SlotFree.lean",
-               "CircusProofs/Core/SlotInv.lean", "CircusProofs/Props/C10.lean", "CircusProofs/Props/C15.lean"])
+               "CircusProofs/Core/SlotInv.lean", "CircusProofs/Props/C10.lean", "CircusProofs/Props/C15.lean", "CircusProofs/Core/OptionsCmd.lean"])
